@@ -124,7 +124,9 @@ func has(codes []int, c int) bool {
 }
 
 // a command with its own active-mode data connection
-func (cl *client) transfer(line string, upload []byte, download bool) ([]int, string, []byte, error) {
+// fault: "" none; "reset" = the client resets the data connection (after the upload bytes, if
+// any; before reading anything of a download)
+func (cl *client) transfer(line string, upload []byte, download bool, fault string) ([]int, string, []byte, error) {
 	ln, err := net.Listen("tcp", "127.0.0.1:0")
 	if err != nil {
 		hx.Fatal("listen: %v", err)
@@ -146,7 +148,14 @@ func (cl *client) transfer(line string, upload []byte, download bool) ([]int, st
 	defer dc.Close()
 	var got []byte
 	var wg sync.WaitGroup
-	if download {
+	if fault == "reset" {
+		if !download && len(upload) > 0 {
+			dc.Write(upload)
+		}
+		dc.(*net.TCPConn).SetLinger(0) // close sends RST
+		dc.Close()
+		download = false
+	} else if download {
 		wg.Add(1)
 		go func() {
 			defer wg.Done()
@@ -291,9 +300,13 @@ func runFtp(w window, layout int, ops []Op) (ob FtpObs, crash string) {
 		case "REST":
 			fo.Codes, text, err = cl.cmd(fmt.Sprintf("REST %d", o.Z))
 		case "STOR":
-			fo.Codes, _, _, err = cl.transfer(line, o.Data, false)
+			fo.Codes, _, _, err = cl.transfer(line, o.Data, false, o.Fault)
 		case "RETR", "LIST", "NLST":
-			fo.Codes, text, data, err = cl.transfer(line, nil, true)
+			if o.Fault == "nodata" {
+				fo.Codes, text, err = cl.cmd(line) // no PORT: the server has no data connection
+			} else {
+				fo.Codes, text, data, err = cl.transfer(line, nil, true, o.Fault)
+			}
 		default:
 			fo.Codes, text, err = cl.cmd(line)
 		}
@@ -313,6 +326,9 @@ func runFtp(w window, layout int, ops []Op) (ob FtpObs, crash string) {
 				}
 			}
 		case "LIST", "NLST":
+			if o.Fault != "" {
+				break // nothing was transferred
+			}
 			fo.Kind = "names"
 			fo.Listed = parseListing(data, o.V == "LIST")
 			fo.Names = []string{}
@@ -518,6 +534,12 @@ func genFtpOps(r *hx.Rand, all []string, maxLen int, cwdOK bool) []Op {
 				// RETR seeks from the end of the file: without a negative REST it sends nothing
 				ops = append(ops, Op{V: "REST", Z: int64(r.PickInt([]int{-6, -100, -4}))})
 			}
+			if v == "STOR" && r.Chance(1, 4) {
+				o.Fault = "reset"
+			}
+			if (v == "LIST" || v == "NLST") && r.Chance(1, 6) {
+				o.Fault = r.PickStr([]string{"reset", "nodata"})
+			}
 			if v == "STOR" {
 				o.Data = hx.B(fmt.Sprintf("up-%d-", r.Intn(1000)) + strings.Repeat("x", r.PickInt([]int{0, 1, 10, 3000})))
 			}
@@ -534,6 +556,7 @@ func genFtpOps(r *hx.Rand, all []string, maxLen int, cwdOK bool) []Op {
 func ftpCorpus() [][]Op {
 	P := func(v, p string) Op { return Op{V: v, P: hx.B(p)} }
 	S := func(p, d string) Op { return Op{V: "STOR", P: hx.B(p), Data: hx.B(d)} }
+	A := func(p, d string) Op { return Op{V: "STOR", P: hx.B(p), Data: hx.B(d), Fault: "reset"} } // aborted upload
 	return [][]Op{
 		{P("MKD", "../escaped-dir"), S("../../b", "overwrite"), P("DELE", "../b"), P("RMD", "../a/a"), P("RNFR", "a/b"), P("RNTO", "../../stolen")},
 		{{V: "REST", Z: -100}, P("RETR", "../b"), {V: "REST", Z: -100}, P("RETR", "b"), P("NLST", ".."), P("LIST", "/../.."), P("SIZE", "../b"), P("MDTM", "../../a/b"), P("RETR", "/../SENTINEL-d/a")},
@@ -552,6 +575,15 @@ func ftpCorpus() [][]Op {
 		{{V: "REST", Z: -6}, P("RETR", "../secret.txt"), {V: "REST", Z: -6}, P("RETR", "a/../../secret.txt"), P("RETR", "../../secret.txt"), P("SIZE", "../secret.txt"), P("MDTM", "../secret.txt")},
 		{{V: "REST", Z: -100}, P("RETR", "../SENTINEL-d/a"), {V: "REST", Z: -6}, P("RETR", "secret.txt"), P("SIZE", "a/../../secret.txt"), P("MDTM", "a/../../secret.txt"), P("SIZE", "../../secret.txt"), P("NLST", "../SENTINEL-d")},
 		{{V: "REST", Z: -2000}, P("RETR", "../../secret.txt"), {V: "REST", Z: -6}, P("RETR", "a/../../../secret.txt"), {V: "REST", Z: -6}, P("RETR", "./../b")},
+		// data-channel faults: the upload is reset before any byte / mid-transfer; whatever the
+		// server cleans up must be the file inside the root, not the host file the client's
+		// string would name (absolute: the mirrored host path; relative: the server's cwd)
+		{A(absVirtual, ""), P("NLST", filepath.Dir(absVirtual)), A(absVirtual, "partial-"), {V: "REST", Z: -100}, P("RETR", absVirtual)},
+		{A("b", ""), A("a/b", "part"), A("../b", ""), A("secret.txt", "part"), A("./a/../b", "")},
+		{{V: "APPE"}, A(absVirtual, "app"), {V: "APPE"}, A("b", "app"), {V: "REST", Z: 0}, A("a/b", ""), {V: "APPE"}, A("../../b", "x")},
+		{A("new", "part"), A("a/new", ""), A("a", "isdir"), A("x/y", "noparent"), A("/", "root"), A("../secret.txt", "part"), A("../../secret.txt", ""), P("NLST", "")},
+		{A(hostSpelled[0]+"/b", "x"), A(hostSpelled[0]+"/../b", "x"), A("..\\b", "x"), A("/b", ""), A("//a//b", "part")},
+		{{V: "LIST", P: hx.B(""), Fault: "nodata"}, {V: "NLST", P: hx.B(".."), Fault: "nodata"}, {V: "LIST", P: hx.B("../.."), Fault: "reset"}, {V: "NLST", P: hx.B("-a"), Fault: "reset"}, P("NLST", "")},
 		// ls-style switches at every place where the listed directory is the root or next to it
 		{P("LIST", "-a"), P("LIST", "-la"), P("LIST", "-al /"), P("NLST", "-a"), P("NLST", "-a .."), P("LIST", "-l"), P("LIST", "-R"), P("LIST", "-a a/.."), P("LIST", "-la /a/b/../..")},
 		{P("LIST", ""), P("LIST", "/"), P("LIST", ".."), P("LIST", "a"), P("LIST", "-a a"), P("LIST", "a/a"), P("NLST", "a/b"), P("LIST", "b"), P("LIST", "../SENTINEL-d"), P("LIST", "../..")},
@@ -635,7 +667,14 @@ func coqCmd(o Op) string {
 	case "REST":
 		return "CRest " + hx.CoqZ(o.Z)
 	case "STOR":
+		if o.Fault != "" {
+			return "CStorAbort " + hx.CoqBytes(o.P) + " " + hx.CoqBytes(o.Data)
+		}
 		return "CStor " + hx.CoqBytes(o.P) + " " + hx.CoqBytes(o.Data)
+	case "LIST", "NLST":
+		if o.Fault != "" {
+			return "CListNoData " + hx.CoqBytes(o.P)
+		}
 	}
 	name := map[string]string{"CWD": "CCwd", "MKD": "CMkd", "RMD": "CRmd", "DELE": "CDele", "RNFR": "CRnfr", "RNTO": "CRnto",
 		"RETR": "CRetr", "LIST": "CList", "NLST": "CNlst", "MDTM": "CMdtm", "SIZE": "CSize"}[o.V]
